@@ -6,6 +6,7 @@ import (
 	"os"
 	"path/filepath"
 	"sort"
+	"strings"
 	"sync"
 
 	"verif/harness/hx"
@@ -67,7 +68,11 @@ func Run(mode Mode, cfg *hx.RunCfg, emit func(res *hx.Result, o *Outcome)) (*hx.
 		}
 		for _, f := range o.Findings {
 			if f.Prop == mode.Prop {
-				res.Fail(f.Sig+"@"+siteClass(site), f.What, c)
+				sig := f.Sig
+				if !strings.HasPrefix(sig, "orphan-value-blob/") && !strings.HasPrefix(sig, "retry-") {
+					sig += "@" + site // value-blob duplication and retry causes are classified by cause, everything else by where the failure was injected
+				}
+				res.Fail(sig, f.What, c)
 			}
 		}
 		res.Sample(map[string]any{"stores": c.Program.Stores, "subject_ops": c.Program.Txns[c.Subject].Ops, "end": c.Program.Txns[c.Subject].End,
@@ -182,5 +187,3 @@ func Run(mode Mode, cfg *hx.RunCfg, emit func(res *hx.Result, o *Outcome)) (*hx.
 	return res, nil
 }
 
-// siteClass drops nothing today; signatures are keyed by the interface call that was failed.
-func siteClass(site string) string { return site }
